@@ -239,7 +239,7 @@ PROPS = {
                 "and JWK, overlapping ids k-1/k-11) x signing procedure (key, hash, P1363/DER, PSS/PKCS1; another key of the type; "
                 "unsigned) x attached / detached / b64=false x text mutation (character flip at any position of each part, unused "
                 "bits of the last character, line break, padding, header alg / kid rewritten, signature stripped, extra segment, "
-                "altered detached payload); plus random strings for the base64url tie; non-trivial = an accepted token or a "
+                "altered detached payload); tokens without kid that bring their key along in a jwk header; did:key key ids whose fragment is the DID's own or a foreign fingerprint; JWT credentials through verifiable.ParseCredential with a key fetcher, with and without WithCredDisableValidation; " "plus random strings for the base64url tie; non-trivial = an accepted token or a "
                 "rejected mutated/crossed one; distinct (input class, outcome)",
         "trusted_base": ["ideal signatures: only (key, procedure, message, signature) tuples the harness produced verify "
                          "(EUF-CMA; ECDSA (r, n-s) twin outside the model)",
@@ -263,16 +263,23 @@ PROPS = {
                 "messages, three nonce shapes; the verifier is handed the honest input and one altered input (changed, dropped, "
                 "swapped, supplemented, prepended message; all messages; other nonce / key; one flipped proof bit at any "
                 "position; payload count or padding bit altered; truncated proof); each proof is verified twice with the same "
-                "bytes; non-trivial = honest proof accepted and an altered input judged; distinct (input class, outcome)",
+                "bytes; credential level (vc entry): generated JSON-LD credentials with 1..3 BbsBlsSignature2020 proofs (and "
+                "Ed25519 proofs next to them), reveal frames over the subject's members, Credential.GenerateBBSSelectiveDisclosure, "
+                "the derived credential verified as it is and altered (member changed / hidden member put back / member dropped / "
+                "other nonce / other key / issuer changed / proof values of two proofs exchanged); recorded honest proofs of the "
+                "corpus (proof entry) must verify; non-trivial = honest proof accepted and an altered input judged; distinct "
+                "(input class, outcome)",
         "trusted_base": ["ideal proof system in the model: an untouched proof verifies exactly for the bound (index, message) "
                          "pairs, nonce and key (soundness of the Schnorr-style proof and independence of hashed generators are "
                          "cryptographic assumptions; Algebra.lean proves completeness and that the checked equation leaves no "
                          "freedom in the disclosed messages)",
-                         "IBM/mathlib BLS12-381 arithmetic and pairing", "message -> field element hashing is injective on the "
-                         "message alphabet of the harness"],
+                         "IBM/mathlib BLS12-381 arithmetic and pairing (found wrong once: finding C17-F5; the honest=ok / "
+                         "verify=ok demand of the oracle is the standing control, the recorded proof in the corpus the regression)",
+                         "message -> field element hashing is injective on the message alphabet of the harness",
+                         "json-gold framing and URDNA2015 canonicalisation (the statements a frame selects)"],
         "assumptions": ["revealed indexes are distinct (the property quantifies over subsets)",
-                        "credential-level selective disclosure (statement <-> index mapping of bbsblssignatureproof2020) is "
-                        "not driven by this check"],
+                        "credential level: subjects with an id, flat members and one nested node; a frame naming a member the "
+                        "credential lacks is refused by the code (fail-closed), which the oracle accepts"],
     },
     "C04": {
         "lean_files": ["AriesVerif/C04/Codec.lean", "AriesVerif/C04/Aead.lean", "AriesVerif/C04/Props.lean",
@@ -332,7 +339,7 @@ PROPS = {
                 "element of a one- and of a two-element array), by reordering / duplicating a set, by changing each of the five "
                 "proof options or the signature, by deleting the proof, by a second proof next to the genuine one (foreign type / "
                 "altered copy), by an undefined type value; verified with default and with strict validation; "
-                "non-trivial = the alteration found a place in the document",
+                "proof options as array / number / object (with and without a signed value of that option); JWT forms: JWT-VC and JWT-VP signed through the framework with the token text altered (line breaks, flipped characters, spare bits, padding), and an LD-signed presentation inside an unsecured JWT whose iss / jti name another holder / id; " "non-trivial = the alteration found a place in the document",
         "trusted_base": ["JSON-LD expansion and URDNA2015 (json-gold) are replaced by the `claims` reading of the generated "
                          "fragment (partial)", "signature primitives ideal", "compaction law: undefined members are dropped"],
         "assumptions": ["no @list container, no language maps, no @graph in the generated fragment",
@@ -444,7 +451,7 @@ PROPS = {
         "case_timeout": 120,
         "rule": "seeded multi-profile histories (2-3 profiles; create / open / open with short expiry / wrong passphrase / close / "
                 "expire / add / get / getall / remove / keypair), every content or key operation with a token drawn from ALL tokens "
-                "issued so far (own, foreign, closed, expired), garbage or not-yet-issued; non-trivial = at least two wallets were "
+                "issued so far (own, foreign, closed, expired), garbage or not-yet-issued; Verify / Derive probes with caller-supplied credentials (derivable BBS+ credential as bytes and as instance, positive control under a live token); cross-profile key probe (owner imports and uses a key, every other live profile tries it through its own session); " "non-trivial = at least two wallets were "
                 "opened, a read returned data and an operation was refused; distinct (input, outcome) pairs",
         "trusted_base": ["gcache expiry (real clock: 400 ms expiry, 1000 ms sleep)", "localkms / hkdf secret lock (passphrase check)",
                          "harness-owned in-memory provider whose stores survive Close"],
@@ -464,7 +471,7 @@ PROPS = {
         "rule": "transition tables of all five protocols regenerated by running CanTransitionTo / nextState on the complete domain; "
                 "seeded message sequences (inbound / outbound messages of every type, fresh and reused threads, duplicates, out of "
                 "order, every continue option / stop decision, and in a quarter of the histories a transport fault: the K-th send of the messenger fails); DID Exchange and the legacy Connection protocol between two real agents on an in-process bus, every decision taken - and repeated - through the accept-by-connection-id API, with transport faults; against the real present-proof and issue-credential services "
-                "(v2 and v3); non-trivial = at least two states were announced; distinct (input, outcome) pairs",
+                "(v2 and v3); DID Exchange and legacy Connection between two real agents (decisions by connection id and on the parked event, repeated decisions, replayed invitation, transport and state-store faults); introduce (proposals, requests, responses, acks, problem reports, continue options, out-of-band entry point, messenger faults); " "non-trivial = at least two states were announced; distinct (input, outcome) pairs",
         "trusted_base": ["recording messenger / harness-owned store and event channels", "verif hooks VerifSync (listener barrier) "
                          "and the table enumeration exports", "hand-written Execute tables (ppExec, icExec) of the model"],
         "assumptions": ["didexchange / connection / introduce are decided at table level only (their service loops are driven in C10)",
@@ -479,7 +486,7 @@ PROPS = {
         "rule": "generated definitions (2-5 input descriptors in groups A-C with exists / const / pattern / minimum field constraints, "
                 "submission requirements none | all | pick with count / min / max, nested up to depth 2, several top-level requirements) x "
                 "generated credential sets (0-4 credentials incl. near misses: attribute present with the wrong value or type); real "
-                "CreateVP then Match on the marshalled presentation; non-trivial = a presentation was created; distinct (input, outcome) pairs",
+                "CreateVP then Match on the marshalled presentation; schema lists with a required entry in any position and degree credentials; the answer also as a presentation array matched with the merged submission (up to 13 credentials); the wallet query engine asked for two definitions; " "non-trivial = a presentation was created; distinct (input, outcome) pairs",
         "trusted_base": ["gval/jsonpath and gojsonschema (constraint evaluation is the predicate credMatches of the driver, for the "
                          "generator's four filter kinds)", "unsigned JSON-LD credentials (proof check disabled on the verifier side)"],
         "assumptions": ["v1-style definitions with a schema uri matched by every generated credential (the verifier validates schemas by default)",
@@ -541,7 +548,7 @@ PROPS = {
                 "EncryptedFormatter (real JWE encrypter, real HMAC key in a harness KMS) over a RECORDING provider, deterministic and "
                 "random document ids, with and without SetStoreConfig; every argument of every provider call is mapped back to a symbolic "
                 "term with the harness's keys and judged by the Lean Opaque predicate; independently every recorded byte string is scanned "
-                "for every plaintext in raw / hex / base58 / base64 / base64url (3 alignments); non-trivial = something was stored",
+                "for every plaintext in raw / hex / base58 / base64 / base64url (3 alignments); the store re-configured in the middle of a history; content encryption A256GCM / XC20P / CBC-HMAC family, every unwrapped content encryption key inspected (random, fresh per write); the REST provider against an in-process vault server; " "non-trivial = something was stored",
         "trusted_base": ["HMAC-SHA256 and the JWE (ideal)", "the harness's recogniser of MACs / document ids / encrypted documents",
                          "store names (OpenStore / SetStoreConfig first argument) are outside the property as stated"],
         "assumptions": ["the WithEDVBatchCrypto configuration (outside the stated quantifier) is not driven; its batchFormat returns "
